@@ -82,6 +82,7 @@ class Contract:
     at_call: dict = field(default_factory=dict)       # callee name -> [Clause] asserted in the caller just before each such call
     assume_after: dict = field(default_factory=dict)  # callee name -> [Clause] ASSUMED right after each such call (`result` bound); listed as assumptions
     ghost_at_exit: dict = field(default_factory=dict)  # ghost path -> expression over the EXIT state (may mention cand_locals)
+    binds_fields: dict = field(default_factory=dict)   # for __init__ contracts: object-typed field -> parameter it aliases
     cand_locals: tuple = ()                   # locals that candidates may mention besides __done__/__ret__
     ghost_yield: dict = field(default_factory=dict)
     rely_ensures: list = field(default_factory=list)
@@ -115,6 +116,7 @@ class Registry:
         self.isinstance_tests: dict[tuple, str] = {}   # (sort, class name) -> spec expression over x
         self.identity_sorts: tuple = ('Inst',)
         self.file_sorts: tuple = ()
+        self.global_objects: dict = {}            # module-level singleton objects: name -> class name
         self.view_names: set = set()
         self.const_names: dict = {}               # module-level names used as opaque values: name -> sort
 
